@@ -215,11 +215,15 @@ func monitorOnce(cs *rtCase) []string {
 			continue
 		}
 		seen := map[string]bool{}
+		seenDisabled := map[string]bool{}
 		for _, f := range n.Forks {
-			if seen[f.Fqname] {
+			if seen[f.Fqname] && !(string(f.State) == "disabled" && seenDisabled[f.Fqname]) {
 				bad = append(bad, fmt.Sprintf("two forks of %s share the name %s", n.Fqname, f.Fqname))
 			}
 			seen[f.Fqname] = true
+			// empty run-time forks nested under another map call all get the id "" (they are
+			// disabled and never run or receive notifications): not counted as a clash
+			seenDisabled[f.Fqname] = string(f.State) == "disabled"
 			ls := launchedIn(f.Fqname)
 			switch string(f.State) {
 			case "disabled":
